@@ -50,3 +50,11 @@ Example C15_nonvacuous :
                            /\ default [] (cs' !! 1%N) = [[3%N]; [9%N]]
   end.
 Proof. vm_compute. repeat split; reflexivity. Qed.
+
+(* The count a call returns — whether it succeeds or fails half-way — is exactly the number of cache
+   entries it removed (cache contents are duplicate-free key lists). *)
+Theorem C15_count_exact : forall broken lk cs ds ls mid ok cnt lk' cs',
+  cs_nodup cs -> invalidate_name broken lk cs ds ls mid = (ok, cnt, lk', cs') ->
+  cnt = csize cs - csize cs' /\ cs_nodup cs'.
+Proof. exact invalidate_name_count. Qed.
+Print Assumptions C15_count_exact.
